@@ -448,6 +448,8 @@ func ruleLOOP(c *Ctx, r *Report) {
 				r.ok(rule, key, pos, "bounded range loop")
 			case c.isCountingLoop(h):
 				r.ok(rule, key, pos, "counting loop: induction variable strictly increases towards a loop-invariant bound")
+			case c.isCountdownLoop(h):
+				r.ok(rule, key, pos, "countdown loop: the counter (or the remaining slice) strictly decreases towards the bound")
 			case isState[fn]:
 				r.ok(rule, key, pos, "lexer state loop (LEX-LOOP)")
 			case lr.Err == "" && fn == lr.Next:
@@ -546,6 +548,78 @@ func (c *Ctx) isCountingLoop(h *ssa.BasicBlock) bool {
 		}
 	}
 	return true
+}
+
+// isCountdownLoop: header tests `i >= c` / `i > c` for a phi i whose every back-edge value is i minus a
+// positive constant; or tests len(x) > 0 / != 0 for a slice/string phi x whose every back-edge value is a
+// strictly shorter re-slice of x (x[k:], k ≥ 1, or x[:len(x)-k]).
+func (c *Ctx) isCountdownLoop(h *ssa.BasicBlock) bool {
+	iff, ok := h.Instrs[len(h.Instrs)-1].(*ssa.If)
+	if !ok {
+		return false
+	}
+	bo, ok := iff.Cond.(*ssa.BinOp)
+	if !ok {
+		return false
+	}
+	op := bo.Op.String()
+	if ph, ok := bo.X.(*ssa.Phi); ok && ph.Block() == h && (op == ">=" || op == ">") {
+		if _, isC := bo.Y.(*ssa.Const); !isC {
+			return false
+		}
+		for i, pred := range h.Preds {
+			if !(pred == h || h.Dominates(pred)) {
+				continue
+			}
+			sub, ok := ph.Edges[i].(*ssa.BinOp)
+			if !ok || sub.Op.String() != "-" || sub.X != ssa.Value(ph) {
+				return false
+			}
+			if n, ok := constIntVal(sub.Y); !ok || n <= 0 {
+				return false
+			}
+		}
+		return true
+	}
+	// len(x) > 0
+	if call, ok := bo.X.(*ssa.Call); ok && (op == ">" || op == "!=") {
+		bi, isB := call.Call.Value.(*ssa.Builtin)
+		if !isB || bi.Name() != "len" {
+			return false
+		}
+		if n, ok := constIntVal(bo.Y); !ok || n != 0 {
+			return false
+		}
+		ph, ok := call.Call.Args[0].(*ssa.Phi)
+		if !ok || ph.Block() != h {
+			return false
+		}
+		for i, pred := range h.Preds {
+			if !(pred == h || h.Dominates(pred)) {
+				continue
+			}
+			sl, ok := ph.Edges[i].(*ssa.Slice)
+			if !ok || sl.X != ssa.Value(ph) {
+				return false
+			}
+			shorter := false
+			if sl.Low != nil {
+				if n, ok := constIntVal(sl.Low); ok && n >= 1 {
+					shorter = true
+				}
+			}
+			if sl.High != nil {
+				if _, fe, ok := c.lenRelIndex(sl.High, nil, ph); ok && fe {
+					shorter = true
+				}
+			}
+			if !shorter {
+				return false
+			}
+		}
+		return true
+	}
+	return false
 }
 
 func (c *Ctx) isRangeHeader(h *ssa.BasicBlock) bool {
